@@ -177,6 +177,7 @@ class Run:
         self.exhaustive = None
         self._known = load_known()
         self.replay_mode = False
+        self._reported = set()
 
     # ---- work distribution and randomness
     def mine(self, n, start=0):
@@ -229,6 +230,10 @@ class Run:
         if k in self._known:
             self.known_hits[key] += 1
             return
+        cid = (key, json.dumps(jsonable(case), sort_keys=True))
+        if cid in self._reported:
+            return  # the same mechanism on the same case is reported once
+        self._reported.add(cid)
         self.violation_counts[key] += 1
         if self.violation_counts[key] > MAX_REPLAYS_PER_KEY:
             return
